@@ -8,6 +8,7 @@ use std::collections::HashMap;
 use std::sync::{Arc, Mutex};
 
 use super::c05::model;
+use super::multi::{self, Multi};
 use super::sm2util::*;
 use crate::engine::*;
 use crate::gen;
@@ -44,6 +45,8 @@ pub enum Tamper {
     Prefix(u8),
     /// C1 = the encoding of a valid point but of the other kind (compressed <-> uncompressed mismatch with the flag)
     WrongKind,
+    /// a multi-byte alteration (see props/multi.rs) of region 0: C3, 1: C2, 2: the x coordinate of C1, 3: everything after the prefix byte
+    Multi(u8, Multi),
 }
 
 #[derive(Serialize, Deserialize, Hash, Debug, Clone)]
@@ -214,6 +217,19 @@ pub fn check(c: &Case) -> CaseResult {
             ct = assemble(&other, &parsed.c2, &parsed.c3, b.c1c3c2);
             class = "wrong-kind";
         }
+        Tamper::Multi(region, m) => {
+            let (c3lo, c2lo, c2hi) = if b.c1c3c2 { (c1len, c1len + 32, ct.len()) } else { (ct.len() - 32, c1len, ct.len() - 32) };
+            let (lo, hi, name) = match region % 4 {
+                0 => (c3lo, c3lo + 32, "multi-C3"),
+                1 => (c2lo, c2hi, "multi-C2"),
+                2 => (1, 33, "multi-C1x"),
+                _ => (1, ct.len(), "multi-body"),
+            };
+            if !multi::apply(&mut ct[lo..hi], m) {
+                return pass(false, "multi-noop");
+            }
+            class = name;
+        }
     }
     let want = r2::decrypt(&d, &ct, b.compressed, b.c1c3c2);
     let sk = lib_sk(&d).map_err(|e| Fail { key: "entry=Sm2PrivateKey::new input=d-in-[1,n-2] outcome=rejected".into(), detail: e })?;
@@ -271,6 +287,7 @@ pub fn tamper_strategy() -> impl Strategy<Value = Tamper> {
         2 => any::<u8>().prop_map(Tamper::Prefix),
         1 => Just(Tamper::WrongKind),
         1 => Just(Tamper::None),
+        6 => (prop_oneof![3 => Just(0u8), 1 => Just(1u8), 1 => Just(2u8), 1 => Just(3u8)], multi::strategy()).prop_map(|(r, m)| Tamper::Multi(r, m)),
     ]
 }
 
@@ -279,7 +296,7 @@ pub fn run(ctx: &Ctx) {
         "a case is (base, tampering): the base is a ciphertext made by the *reference* encryptor (|M| 1..64, four configurations); tamperings: every single-bit flip incl. the prefix byte (exhaustive per base), \
          every truncation length, small extensions, C1 replaced by a random off-curve (x,y) with C2/C3 forged consistently through the group law of the curve y^2=x^3+ax+b' it lies on (invalid-curve attack: \
          without an on-curve check the library returns the plaintext), C1 nudged off the curve, compressed x with non-residue right-hand side, an on-curve C1 with small x encoded as x+p with consistent C2/C3, \
-         every other prefix byte, C1 re-encoded in the other form. Oracle: the reference decryptor (strict SEC1 decoding, on-curve check, C3 check) decides; tampered => Err, never a plaintext, never a panic. Non-trivial: a case the reference rejects.",
+         every other prefix byte, C1 re-encoded in the other form, multi-byte alterations of C3 / C2 / C1.x that preserve the xor, the sum or the multiset of the bytes or words (a folded or partial comparison of C3 accepts them), wholesale replacements of C3. Oracle: the reference decryptor (strict SEC1 decoding, on-curve check, C3 check) decides; tampered => Err, never a plaintext, never a panic. Non-trivial: a case the reference rejects.",
     );
     ctx.assume("reference decryptor (harness/src/refimpl/sm2.rs): strict SEC1 decoding (prefix 02/03/04 matching the caller's flag, coordinates < p), on-curve check, C3 = SM3(x2||M'||y2)");
     ctx.assume("rejection is decided for the generated tamperings only");
@@ -314,6 +331,20 @@ pub fn run(ctx: &Ctx) {
             }
             v.push(Case { base: b.clone(), tamper: Tamper::None });
             v.push(Case { base: b.clone(), tamper: Tamper::WrongKind });
+        }
+        v
+    }, check);
+
+    let nbm = ctx.tier.pick(4, 32);
+    ctx.exhaustive("c3_multi_byte_alterations", "alterations of C3 that keep the xor / sum / multiset of its bytes or words (all byte pairs x 3 masks, sum-preserving pairs, all rotations, word shuffles, partial keeps), wholesale replacements; the same family at word distances on C2 — for each base", move || {
+        let mut v = Vec::new();
+        for b in fixed_bases(seed ^ 0x66, nbm) {
+            for m in multi::family(32, true, 300) {
+                v.push(Case { base: b.clone(), tamper: Tamper::Multi(0, m) });
+            }
+            for m in multi::family(b.msg_len, false, 8) {
+                v.push(Case { base: b.clone(), tamper: Tamper::Multi(1, m) });
+            }
         }
         v
     }, check);
